@@ -23,11 +23,13 @@ CONSTANTS N,           \* instances 1..N; nick identifiers ordered like the numb
           SlowQ,       \* set of 10*i+j: FIFOs i->j scheduled freely; all other non-empty FIFOs are eager (priority)
           Checkpoint,  \* "COLD" | "JOIN": initial states
           FixF1,       \* TRUE: CONCILIATION -> ELECTION is in the transition table (fix F1)
+          FixF5,       \* TRUE: on_instance_failure ignores instances that are not in an active state (fix F5)
           HoldDist,    \* TRUE: the Starter of the Master is in progress when DISTRIBUTION is entered (until Release)
           MaxRound     \* bound on the number of tick rounds (state constraint)
 
 Inst == 1..N
 NoMaster == 0
+P == INSTANCE ClusterProps
 
 IStates == {"STOPPED", "CHECKING", "CHECKED", "RUNNING", "FAILED", "ISOLATED"}
 Active(s) == s \in {"CHECKING", "CHECKED", "RUNNING", "FAILED"}
@@ -76,6 +78,11 @@ VARIABLES alive,    \* [Inst -> BOOLEAN]
                     \* instance ticks once per round, in any order)
           round,    \* number of completed rounds
           conflict, \* environment: a conflict is visible to the Master (context.conflicting())
+          inc,      \* [Inst -> Nat]  incarnation number
+          g,        \* ghost record of ClusterProps (a function of the history)
+          calm,     \* consecutive completed rounds without disturbance and ending with empty FIFOs (capped)
+          dirty,    \* a disturbance (fault / user request / environment change) happened in the current round
+          ended,    \* a restart / shutdown was requested by a user
           budget,   \* [crash, restart, cut, user |-> Nat]
           err,      \* [Inst -> BOOLEAN]  an internal error was raised (partial operation outside its domain)
           refused,  \* [Inst -> Nat]  consecutive evaluations whose proposal the table refused
@@ -85,9 +92,10 @@ VARIABLES alive,    \* [Inst -> BOOLEAN]
           hist      \* behaviour log [a, p] used by -simulate only (constant <<>> under Spec)
 
 core == <<alive, tick, fsm, master, inst, seen, rem, sm, mark, deg, hold, q, cut, ticked, round, conflict, budget,
-          err, refused>>
-vars == <<core, pubs, ipubs, act, hist>>
-View == core
+          err, refused, inc>>
+ghost == <<g, calm, dirty, ended>>
+vars == <<core, ghost, pubs, ipubs, act, hist>>
+View == <<core, ghost>>
 
 -----------------------------------------------------------------------------
 (* Local evaluation record L: the part of the state of instance L.i that a main-thread callback reads/writes. *)
@@ -468,7 +476,8 @@ ProxyLocal(i) ==
           [] it.kind = "ALLINFO" -> /\ Commit(L, qb) /\ act' = <<"Notify", i, j, "ALLINFO">> /\ UNCHANGED alive
           [] it.kind = "FAILURE" ->
                \* Context.on_instance_failure
-               /\ Commit(IF L.inst[j] = "ISOLATED" THEN L ELSE SetInst(L, j, "FAILED"), qb)
+               /\ Commit(IF L.inst[j] = "ISOLATED" \/ (FixF5 /\ ~Active(L.inst[j])) THEN L
+                         ELSE SetInst(L, j, "FAILED"), qb)
                /\ act' = <<"Notify", i, j, "FAILURE">> /\ UNCHANGED alive
           [] it.kind \in {"RESTART", "SHUTDOWN"} ->
                \* supervisor.restart / shutdown of the own Supervisor: the instance stops
@@ -593,21 +602,87 @@ ColdInit ==
   /\ q = [i \in Inst |-> [j \in Inst |-> <<>>]]
   /\ cut = {}
   /\ ticked = {} /\ round = 0 /\ conflict = FALSE
+  /\ inc = [i \in Inst |-> 1]
   /\ err = [i \in Inst |-> FALSE]
   /\ refused = [i \in Inst |-> 0]
 
 Init == /\ ColdInit
         /\ budget = [crash |-> MaxCrash, restart |-> MaxRestart, cut |-> MaxCut, user |-> MaxUser]
         /\ pubs = <<>> /\ ipubs = <<>> /\ act = <<"Init">> /\ hist = <<>>
+        /\ g = P!GhostInit /\ calm = 0 /\ dirty = FALSE /\ ended = FALSE
 
-Spec == Init /\ [][Next /\ UNCHANGED hist]_vars
+-----------------------------------------------------------------------------
+(* Observable step record of the last action, in the vocabulary of ClusterProps *)
+Obs(al, ic, fs, ms, is, tk) ==
+  [i \in Inst |-> [alive |-> al[i], inc |-> ic[i], fsm |-> IF al[i] THEN fs[i] ELSE "DEAD",
+                   master |-> IF al[i] THEN ms[i] ELSE 0, tick |-> IF al[i] THEN tk[i] ELSE 0,
+                   inst |-> IF al[i] THEN is[i] ELSE [j \in Inst |-> "STOPPED"]]]
+
+LocalVars(i) == <<fsm[i], master[i], inst[i], seen[i], rem[i], sm[i], mark[i], deg[i], q[i]>>
+LocalVarsP(i) == <<fsm'[i], master'[i], inst'[i], seen'[i], rem'[i], sm'[i], mark'[i], deg'[i], q'[i]>>
+
+Rec ==
+  LET a == act'
+      kind == a[1]
+      isProxy == kind \in {"Deliver", "SendFail", "Filtered", "Check", "CheckFail", "ReqFail", "ReqAll", "Notify",
+                           "Stop"}
+  IN [a |-> IF kind = "Tick" THEN "Tick" ELSE IF isProxy THEN "Proxy"
+            ELSE IF kind \in {"Boot", "Crash", "Cut", "Heal"} THEN kind
+            ELSE IF kind \in {"User", "EndSync"} THEN "Rpc" ELSE "Env",
+      n |-> IF kind = "Conflict" THEN 0 ELSE a[2],
+      d |-> IF kind \in {"Deliver", "SendFail", "Filtered", "Check", "CheckFail", "ReqFail", "ReqAll", "Cut", "Heal",
+                         "EndSync"} THEN a[3]
+            ELSE IF kind = "Notify" THEN a[3] ELSE IF kind = "Stop" THEN a[2] ELSE 0,
+      k |-> IF kind = "Deliver" THEN a[4] ELSE IF kind = "EndSync" THEN "end_sync"
+            ELSE IF kind = "Notify" THEN "NOTIF_" \o a[4] ELSE kind,
+      pre |-> Obs(alive, inc, fsm, master, inst, tick),
+      post |-> Obs(alive', inc', fsm', master', inst', tick'),
+      pubs |-> pubs', ipubs |-> ipubs', push |-> <<>>,
+      \* INSTANCE_FAILURE notifications queued by the step (handle_exception)
+      nfail |-> IF kind \in {"SendFail", "CheckFail", "ReqFail"} /\ Active(inst[a[2]][a[3]])
+                THEN <<<<a[2], a[3]>>>> ELSE <<>>,
+      fails |-> IF kind \in {"SendFail", "CheckFail", "ReqFail"} THEN {<<a[2], a[3]>>} ELSE {},
+      err |-> \E i \in Inst : err'[i] /\ ~err[i],
+      iso |-> kind = "Deliver" /\ inst[a[3]][a[2]] = "ISOLATED",
+      snapchg |-> kind = "Deliver" /\ LocalVarsP(a[3]) # LocalVars(a[3]),
+      user |-> FALSE]
+
+QueuesEmpty(qq, al) == \A i, j \in Inst : al[i] => qq[i][j] = <<>>
+Disturbing == act'[1] \in {"Crash", "Boot", "Cut", "Heal", "User", "EndSync", "Conflict", "Release"}
+CalmCap == 12
+
+GhostNext ==
+  /\ inc' = IF act'[1] = "Boot" THEN [inc EXCEPT ![act'[2]] = @ + 1] ELSE inc
+  /\ g' = P!GhostStep(g, Rec)
+  /\ ended' = (ended \/ act'[1] = "User")
+  \* the previous round is judged when a new round starts (first tick of the round): it was calm when no
+  \* disturbance happened in it and every FIFO had been drained
+  /\ IF act'[1] = "Tick" /\ ticked = {}
+     THEN /\ calm' = IF ~dirty /\ QueuesEmpty(q, alive) /\ cut = {}
+                     THEN (IF calm < CalmCap THEN calm + 1 ELSE calm) ELSE 0
+          /\ dirty' = FALSE
+     ELSE /\ calm' = IF Disturbing THEN 0 ELSE calm
+          /\ dirty' = (dirty \/ Disturbing)
+
+Spec == Init /\ [][Next /\ GhostNext /\ UNCHANGED hist]_vars
+
+\* E1 properties -------------------------------------------------------------------------------------------
+KnownLabels == {"KNOWN.F10", "KNOWN.F2", "KNOWN.F1"}
+\* safety: every step satisfies every step formula of ClusterProps (C01 C02 C07 C13 C16)
+StepsOK == [][P!StepFailures(g, Rec) \subseteq KnownLabels]_vars
+\* C01 / C08: once the cluster has been calm for K rounds the terminal classification admits no failure
+CONSTANT K
+Terminal == calm >= K => P!TerminalFailures(Obs(alive, inc, fsm, master, inst, tick), ended) \subseteq KnownLabels
+\* vacuity witnesses (expected to be VIOLATED when listed as invariants: they show the antecedents are reachable)
+WitnessCalm == calm < K
+WitnessOperation == ~(\E i \in Inst : alive[i] /\ fsm[i] = "OPERATION")
 
 \* projection compared with the real code after each replayed action (conformance)
 Proj == [i \in Inst |-> [alive |-> alive[i], fsm |-> fsm[i], master |-> master[i], inst |-> inst[i],
                          tick |-> tick[i], seen |-> seen[i], mark |-> mark[i],
                          sm |-> [j \in Inst |-> <<sm[i][j].fsm, sm[i][j].master>>],
                          ql |-> [j \in Inst |-> Len(q[i][j])], err |-> err[i]]]
-SpecH == Init /\ [][Next /\ hist' = Append(hist, [a |-> act', p |-> Proj'])]_vars
+SpecH == Init /\ [][Next /\ GhostNext /\ hist' = Append(hist, [a |-> act', p |-> Proj'])]_vars
 \* printed by every candidate last step: the common prefix (deduplicated by the reader)
 CONSTANT D
 SimLog == Len(hist) # D \/ PrintT("B " \o ToJson(SubSeq(hist, 1, D - 1)))
